@@ -48,10 +48,10 @@ type KnownFinding struct {
 	Property    string            `json:"property"`
 	Harness     string            `json:"harness,omitempty"`
 	Params      map[string]int    `json:"params,omitempty"`
-	Msg         string            `json:"msg,omitempty"`      // assertion message (exact)
-	Inputs      map[string]string `json:"inputs,omitempty"`   // string name -> abstract template ('?' = any byte outside Keep)
-	Keep        string            `json:"keep,omitempty"`     // bytes that are kept literally in templates
-	Ints        map[string]int64  `json:"ints,omitempty"`     // scalar inputs that must match exactly
+	Msg         string            `json:"msg,omitempty"`    // assertion message (exact)
+	Inputs      map[string]string `json:"inputs,omitempty"` // string name -> abstract template ('?' = any byte outside Keep)
+	Keep        string            `json:"keep,omitempty"`   // bytes that are kept literally in templates
+	Ints        map[string]int64  `json:"ints,omitempty"`   // scalar inputs that must match exactly
 	Description string            `json:"description"`
 	Commit      string            `json:"commit,omitempty"`
 }
@@ -249,6 +249,7 @@ func cmdRun(args []string) int {
 		stime   time.Duration
 		unknown int
 		funcs   map[*ssa.Function]bool
+		domq    int
 		err     error
 	}
 	type workItem struct {
@@ -299,6 +300,12 @@ func cmdRun(args []string) int {
 				if in == nil {
 					var err error
 					in, err = NewInterp(p, *solverKind, timeoutMs)
+					if in != nil {
+						in.crossCheck = 25
+						if *tier == "thorough" {
+							in.crossCheck = 10
+						}
+					}
 					if err != nil {
 						outs[w].err = err
 						qmu.Lock()
@@ -346,13 +353,14 @@ func cmdRun(args []string) int {
 				outs[w].stime = in.solver.Time
 				outs[w].unknown = in.solver.Unknowns + in.solver.Errors
 				outs[w].funcs = in.funcsRun
+				outs[w].domq = in.domQueries
 			}
 		}(w)
 	}
 	wg.Wait()
 
 	var all []*JobResult
-	queries, unknowns := 0, 0
+	queries, unknowns, domq := 0, 0, 0
 	var stime time.Duration
 	funcs := map[string]bool{}
 	for _, o := range outs {
@@ -364,6 +372,7 @@ func cmdRun(args []string) int {
 		queries += o.queries
 		stime += o.stime
 		unknowns += o.unknown
+		domq += o.domq
 		for f := range o.funcs {
 			if f.Pkg != nil && strings.HasPrefix(f.Pkg.Pkg.Path(), "github.com/tigerwill90/fox") {
 				funcs[f.String()] = true
@@ -551,6 +560,7 @@ func cmdRun(args []string) int {
 			"paths_ended_by_assume":         assumeEnds,
 			"ssa_instructions_executed":     steps,
 			"queries":                       queries,
+			"unary_domain_decisions":        domq,
 			"solver_time_s":                 round2(stime.Seconds()),
 			"solver":                        *solverKind,
 			"bounds":                        bounds,
